@@ -239,11 +239,20 @@ Record subcfg := CFG {
   c_seg_depth : Z;        (* SegmentDepthLimit, default -1 *)
   c_entries_depth : Z;    (* EntriesDepthLimit *)
   c_strict : bool;        (* StrictAdsSelector, default true *)
-  c_hook : hook_kind }.   (* BlockHook *)
+  c_hook : hook_kind;     (* BlockHook *)
+  c_lastknown : option cid }.   (* WithLastKnownSync: what the function answers for this publisher *)
 
 Record substate := ST {
-  s_latest : option cid;  (* latest sync of this publisher *)
+  s_latest : option cid;  (* latest sync of this publisher (Subscriber.latestSyncHandler) *)
   s_store : list cid }.
+
+(* GetLatestSync: the recorded value, else what WithLastKnownSync's function knows (the code
+   also caches that answer; with a constant function the cache is not observable) *)
+Definition eff_latest (cfg : subcfg) (st : substate) : option cid :=
+  match s_latest st with
+  | Some c => Some c
+  | None => c_lastknown cfg
+  end.
 
 Record adcall := ADCALL {
   a_head : option cid;        (* WithHeadAdCid *)
@@ -269,10 +278,10 @@ Definition ads_view (cfg : subcfg) : view := if c_strict cfg then VPrev else VAl
      depthLimit := s.adsDepthLimit; if opts.depthLimit != 0 { depthLimit = recursionLimit(opts.depthLimit) }
      if opts.resync { if stopAdCid != Undef { stopLnk = stopAdCid } }
      else { if stopAdCid != Undef { stopLnk = stopAdCid } else { stopLnk = GetLatestSync } } *)
-Definition go_stop (st : substate) (a : adcall) : option cid :=
+Definition go_stop (cfg : subcfg) (st : substate) (a : adcall) : option cid :=
   if a_resync a
   then match a_stop a with Some s => Some s | None => None end
-  else match a_stop a with Some s => Some s | None => s_latest st end.
+  else match a_stop a with Some s => Some s | None => eff_latest cfg st end.
 
 (* ... and L480-L488: if stopLnk != nil { (early return test) }
      else if s.firstSyncDepth != 0 && opts.depthLimit == 0 { depthLimit = recursionLimit(firstSyncDepth) } *)
@@ -295,7 +304,7 @@ Definition resolve_hook (cfg : subcfg) (scoped : option hook_kind) : hook_kind :
   end.
 
 Definition sync_ad_chain (w : world) (cfg : subcfg) (a : adcall) (st : substate) : callout :=
-  let stop := go_stop st a in
+  let stop := go_stop cfg st a in
   match (match a_head a with
          | Some h => Some (h, false)
          | None => match a_pubhead a with
@@ -481,7 +490,14 @@ Inductive call :=
 | CAd (a : adcall)
 | CEntries (ent : option cid) (depth : Z) (scoped : option hook_kind)
 | COne (ent : option cid)
-| CAll (ent : option cid) (scoped : option hook_kind).
+| CAll (ent : option cid) (scoped : option hook_kind)
+| CRemove      (* Subscriber.RemoveHandler(publisher) *)
+| CIdle.       (* the idle-handler cleaner removes the publisher's handler *)
+
+(* removing a publisher's handler touches neither the latest sync nor the store: both are
+   state of the Subscriber, not of the handler *)
+Definition is_removal (c : call) : bool :=
+  match c with CRemove | CIdle => true | _ => false end.
 
 Definition run_call (w : world) (cfg : subcfg) (c : call) (st : substate) : callout :=
   match c with
@@ -489,6 +505,17 @@ Definition run_call (w : world) (cfg : subcfg) (c : call) (st : substate) : call
   | CEntries e d h => sync_entries w cfg e d h st
   | COne e => sync_one w cfg e st
   | CAll e h => sync_all w cfg e h st
+  | CRemove | CIdle => CO RNil [] [] None st
+  end.
+
+Fixpoint run_seq (w : world) (cfg : subcfg) (l : list call) (st : substate)
+  : list (call * callout) * substate :=
+  match l with
+  | [] => ([], st)
+  | c :: r =>
+    let o := run_call w cfg c st in
+    let '(outs, st') := run_seq w cfg r (r_state o) in
+    ((c, o) :: outs, st')
   end.
 
 (* what the harness observed of one call *)
@@ -514,9 +541,9 @@ Definition set_eqb (a b : list cid) : bool := subset a b && subset b a.
 
 Definition event_eqb (x y : cid * nat) : bool := (fst x =? fst y) && Nat.eqb (snd x) (snd y).
 
-Definition obs_ok (o : callout) (b : obs) : bool :=
+Definition obs_ok (cfg : subcfg) (o : callout) (b : obs) : bool :=
   retv_eqb (r_ret o) (ob_ret b) && cids_eqb (r_hooks o) (ob_hooks b) &&
-  cids_eqb (r_reqs o) (ob_reqs b) && option_eqb N.eqb (s_latest (r_state o)) (ob_latest b).
+  cids_eqb (r_reqs o) (ob_reqs b) && option_eqb N.eqb (eff_latest cfg (r_state o)) (ob_latest b).
 
 (* all calls agree with what was observed; final state; events emitted, in order *)
 Fixpoint run_calls (w : world) (cfg : subcfg) (l : list (call * obs)) (st : substate)
@@ -526,7 +553,7 @@ Fixpoint run_calls (w : world) (cfg : subcfg) (l : list (call * obs)) (st : subs
   | (c, b) :: r =>
     let o := run_call w cfg c st in
     let '(ok, st', evs) := run_calls w cfg r (r_state o) in
-    (obs_ok o b && ok, st', match r_event o with Some e => e :: evs | None => evs end)
+    (obs_ok cfg o b && ok, st', match r_event o with Some e => e :: evs | None => evs end)
   end.
 
 (* world, config, initial state, the calls with what was observed, final store keys,
